@@ -2,6 +2,7 @@
    vandermonde.go, applyMatrix) over the matrices of C11 and the field of C08.
    Shards are lists of 16-bit words; the Go code works on the little-endian
    bytes of the same words through the kernels of C09. *)
+From Gopar Require Import Proofs.RS16Singular.
 From Gopar Require Import Model.Base Model.GF16 Model.Matrix Model.RS16
      Proofs.LinAlg Proofs.Matrix16 Proofs.RS16Facts Proofs.LinAlgSingular Proofs.CauchyMDS.
 Open Scope N_scope.
@@ -79,3 +80,30 @@ Example C07_example :
   reconstruct c (erase [true; false; true; false; true] D)
                 (erase [true; false; true] (gen_parity c D)) = Ok D.
 Proof. vm_compute. reflexivity. Qed.
+
+(* THE OUTCOME IS DECIDED BY THE SELECTED MINOR (Proofs/RS16Singular.v): for ANY well-formed parity matrix (the PAR2
+   Vandermonde one in particular: par2_reconstruct_dichotomy), any data and any erasure masks, with M_sel the square
+   matrix of the LOWEST-NUMBERED available parity rows (as many as data shards are missing) restricted to the columns
+   of the missing data shards - exactly what reconstruct row-reduces (reconstruct_system, selected_rows_lowest):
+     too few parity shards        -> the not-enough-parity error;
+     enough, M_sel singular       -> the singular error (it has a non-trivial kernel vector);
+     enough, M_sel non-singular   -> success, and the result is the original data *)
+Theorem C07_outcome_by_selected_minor : forall c D kd kp L,
+  (0 < c_data c)%nat -> wfm16 (c_parity c) (c_data c) (c_pm c) -> wfm16 (c_data c) L D ->
+  length kd = c_data c -> length kp = c_parity c ->
+  let res := reconstruct c (erase kd D) (erase kp (gen_parity c D)) in
+  let q := count_false kd in
+  ((count_true kp < q)%nat -> res = Err ENotEnoughParity) /\
+  ((q <= count_true kp)%nat -> singular q (M_sel (c_pm c) kd kp) -> res = Err ESingular) /\
+  ((q <= count_true kp)%nat -> nonsingular q (M_sel (c_pm c) kd kp) -> res = Ok D).
+Proof. exact reconstruct_outcome. Qed.
+Print Assumptions C07_outcome_by_selected_minor.
+
+Theorem C07_singular_iff_selected_minor : forall c D kd kp L,
+  wfm16 (c_parity c) (c_data c) (c_pm c) -> wfm16 (c_data c) L D ->
+  length kd = c_data c -> length kp = c_parity c -> (count_false kd <= count_true kp)%nat ->
+  (reconstruct c (erase kd D) (erase kp (gen_parity c D)) = Err ESingular
+   <-> exists x, wfv16 (count_false kd) x /\ x <> zeros (count_false kd)
+                 /\ mvec16 (M_sel (c_pm c) kd kp) x = zeros (count_false kd)).
+Proof. exact reconstruct_singular_iff. Qed.
+Print Assumptions C07_singular_iff_selected_minor.
